@@ -28,6 +28,75 @@ Definition canary : string := "/R/db2/secret/*/*/*/*/*.parquet".
 (* C14                                                                                    *)
 (* ==================================================================================== *)
 
+(* ------------------------------------------------------------------------------------ *)
+(* C14 for the CURRENT source ([fx_all]: every repair of fixes/C14_*.patch, C16_*.patch)     *)
+(* ------------------------------------------------------------------------------------ *)
+(* The request text itself is never executed any more. *)
+Theorem C14_current_never_raw : forall s, route_of (fx_noraw fx_all) s = Transformed.
+Proof. reflexivity. Qed.
+Print Assumptions C14_current_never_raw.
+
+(* For EVERY accepted request of the class (no guard on literals, no guard on the statement kind, no route
+   hypothesis): the executed text is the normalised text in which exactly the table references were replaced by
+   read_parquet of their measurement, and every measurement so read is one of the references handed to the
+   permission check - the same database and the same measurement, as written. *)
+Theorem C14_current_sound : forall s chk rt text,
+  req_in_grammar s = true ->
+  gate_gen fx_all s [] = OExec chk rt text ->
+  rt = Transformed
+  /\ text = restore s (toks (subst_segs (req_names s) (req_ctes fx_all s) k_default true (req_segs s)))
+  /\ forall r, In r (rewritten_refs (req_names s) (req_ctes fx_all s) k_default true (req_segs s)) -> covers_exact chk r = true.
+Proof. exact gate_current_nohdr. Qed.
+Print Assumptions C14_current_sound.
+
+(* The same with the x-arc-database header on the regexp path (the converter now excludes exactly the CTE names
+   the permission check excludes: no hypothesis about them is left). *)
+Theorem C14_current_sound_header : forall s hdr chk rt text,
+  req_in_grammar s = true -> hdr <> [] -> fast_single_ok true true s = false ->
+  gate_gen fx_all s hdr = OExec chk rt text ->
+  rt = Transformed
+  /\ text = restore s (toks (subst_segs (req_names s) (req_ctes fx_all s) hdr false (req_segs s)))
+  /\ forall r, In r (rewritten_refs (req_names s) (req_ctes fx_all s) hdr false (req_segs s)) -> covers_exact chk r = true.
+Proof. exact gate_current_hdr. Qed.
+Print Assumptions C14_current_sound_header.
+
+Example C14_current_satisfiable :
+  let s := bs ("WITH ""recent"" AS (SELECT id, host FROM db1.cpu WHERE tag <> '/R/db2/secret/x.parquet -- y') /* c */ SELECT r.host, count(*) FROM recent r LEFT OUTER JOIN ""db1"".""mem"" m ON r.id = m.id NATURAL JOIN (SELECT id FROM db1.CPU) q -- t" ++ nl ++ " GROUP BY r.host") in
+  req_in_grammar s = true /\ pathlike_free s = false
+  /\ gate_gen fx_all s [] = OExec [(bs "db1", bs "cpu"); (bs "db1", bs "CPU"); (bs "db1", bs "mem")] Transformed
+       (bs ("WITH ""recent"" AS (SELECT id, host FROM read_parquet('/R/db1/cpu/**/*.parquet', union_by_name=true) WHERE tag <> '/R/db2/secret/x.parquet -- y')   SELECT r.host, count(*) FROM recent r LEFT OUTER JOIN read_parquet('/R/db1/mem/**/*.parquet', union_by_name=true) m ON r.id = m.id NATURAL JOIN (SELECT id FROM read_parquet('/R/db1/CPU/**/*.parquet', union_by_name=true)) q " ++ nl ++ " GROUP BY r.host")).
+Proof. vm_compute. repeat split. Qed.
+
+(* every witness of the refutations below is now refused, or executes without touching the foreign database; the
+   two spellings of the de-duplication witness are both checked *)
+Definition harmless (o : outcome) : bool :=
+  match o with
+  | OReject _ => true
+  | OExec _ _ text => negb (has_sub (bs "db2") text)
+  | _ => false
+  end.
+Theorem C14_current_witnesses_closed :
+  forallb (fun sh => harmless (gate_gen fx_all (fst sh) (snd sh)))
+    [ (bs ("TABLE """ ++ canary ++ """"), []); (bs ("SUMMARIZE '" ++ canary ++ "'"), []);
+      (bs ("PIVOT """ ++ canary ++ """ ON host USING count(*)"), []);
+      (bs ("SELECT * -- 'read_parquet" ++ nl ++ "FROM """ ++ canary ++ """ -- '"), []);
+      (bs ("WITH x AS (SELECT 1 FROM db1.cpu) TABLE """ ++ canary ++ """"), []);
+      (bs ("SELECT * FROM (""" ++ canary ++ """ a CROSS JOIN db1.cpu b)"), []);
+      (bs ("SELECT 'a\' FROM """ ++ canary ++ """ WHERE 'b' = 'b'"), []);
+      (bs "SELECT 1 AS ""--"", * FROM read_parquet('/R/db2/secret/**/*.parquet')", []);
+      (bs ("SELECT 'x' AS ""--"" FROM db1.cpu t1, '" ++ canary ++ "' t2"), []);
+      (bs ("SELECT * FROM query('SELECT * FROM ''" ++ canary ++ "''')"), []);
+      (bs ("WITH" ++ nl ++ "secret AS (SELECT 1) SELECT * FROM secret"), bs "db2");
+      (bs "SELECT * FROM secret WINDOW w1 AS (ORDER BY id), secret AS (ORDER BY id)", bs "db2");
+      (bs "SELECT * FROM cpu a JOIN LATERAL ' || $$../db2/secret$$ || ' b ON true", bs "db1") ] = true
+  /\ exists text, gate_gen fx_all (bs "SELECT * FROM cpu a JOIN CPU b ON a.id = b.id") (bs "db1")
+                   = OExec [(bs "db1", bs "cpu"); (bs "db1", bs "CPU")] Transformed text.
+Proof. split; [vm_compute; reflexivity|]. eexists. vm_compute. reflexivity. Qed.
+
+(* ------------------------------------------------------------------------------------ *)
+(* C14 for every variant of the code (any subset of the repairs), and the refutations of    *)
+(* the code as it was ([gate] = [gate_gen fx_none])                                         *)
+(* ------------------------------------------------------------------------------------ *)
 (* 1. Transform path, no header.  For EVERY request text in the class: the executed text is the normalised
    text in which exactly the table references (qualified ones, and unqualified ones that are neither CTE
    names nor on the skip list) were replaced by read_parquet of their measurement, literals restored;
@@ -36,8 +105,8 @@ Definition canary : string := "/R/db2/secret/*/*/*/*/*.parquet".
 Theorem C14_transform_path_sound : forall fx s chk rt text,
   req_in_grammar s = true ->
   gate_gen fx s [] = OExec chk rt text -> rt = Transformed ->
-  text = restore s (toks (subst_segs (req_names s) (cte_names (req_toks s)) k_default true (req_segs s)))
-  /\ forall r, In r (rewritten_refs (req_names s) (cte_names (req_toks s)) k_default true (req_segs s)) -> covers chk r = true.
+  text = restore s (toks (subst_segs (req_names s) (req_ctes fx s) k_default true (req_segs s)))
+  /\ forall r, In r (rewritten_refs (req_names s) (req_ctes fx s) k_default true (req_segs s)) -> covers chk r = true.
 Proof. exact gate_transform_nohdr. Qed.
 Print Assumptions C14_transform_path_sound.
 
@@ -45,25 +114,12 @@ Print Assumptions C14_transform_path_sound.
    the same, for requests on which the converter looks for CTE names whenever the permission check does. *)
 Theorem C14_transform_path_sound_header : forall fx s hdr chk rt text,
   req_in_grammar s = true -> hdr <> [] -> fast_single_ok (fx_single fx) (fx_with fx) s = false ->
-  hdr_ctes (fx_with fx) (req_toks s) = cte_names (req_toks s) ->
+  req_hdr_ctes fx s = req_ctes fx s ->
   gate_gen fx s hdr = OExec chk rt text -> rt = Transformed ->
-  text = restore s (toks (subst_segs (req_names s) (hdr_ctes (fx_with fx) (req_toks s)) hdr false (req_segs s)))
-  /\ forall r, In r (rewritten_refs (req_names s) (hdr_ctes (fx_with fx) (req_toks s)) hdr false (req_segs s)) -> covers chk r = true.
+  text = restore s (toks (subst_segs (req_names s) (req_hdr_ctes fx s) hdr false (req_segs s)))
+  /\ forall r, In r (rewritten_refs (req_names s) (req_hdr_ctes fx s) hdr false (req_segs s)) -> covers chk r = true.
 Proof. exact gate_transform_hdr. Qed.
 Print Assumptions C14_transform_path_sound_header.
-
-(* ... and with the repair C14_header_cte_names_same_pattern that hypothesis is gone *)
-Theorem C14_transform_path_sound_header_repaired : forall fx s hdr chk rt text,
-  fx_with fx = true ->
-  req_in_grammar s = true -> hdr <> [] -> fast_single_ok (fx_single fx) true s = false ->
-  gate_gen fx s hdr = OExec chk rt text -> rt = Transformed ->
-  text = restore s (toks (subst_segs (req_names s) (cte_names (req_toks s)) hdr false (req_segs s)))
-  /\ forall r, In r (rewritten_refs (req_names s) (cte_names (req_toks s)) hdr false (req_segs s)) -> covers chk r = true.
-Proof.
-  intros fx s hdr chk rt text Hfx Hg Hh Hf H Hrt.
-  pose proof (gate_transform_hdr fx s hdr chk rt text Hg Hh) as T. rewrite Hfx in T. exact (T Hf eq_refl H Hrt).
-Qed.
-Print Assumptions C14_transform_path_sound_header_repaired.
 
 (* 3. The two raw fast paths execute the request text itself: nothing is rewritten, so what DuckDB reads
    is decided by DuckDB's own lexer and grammar (sound only under lexer agreement and when no literal of
@@ -85,7 +141,7 @@ Proof. vm_compute. repeat split. Qed.
 
 Example C14_guard_satisfiable_header :
   let s := bs ("SELECT a.host FROM cpu a FULL OUTER JOIN (SELECT * FROM mem) m ON a.id = m.id /* x */ WHERE a.tag = 'q'") in
-  req_in_grammar s = true /\ fast_single_ok false false s = false /\ hdr_ctes false (req_toks s) = cte_names (req_toks s)
+  req_in_grammar s = true /\ fast_single_ok false false s = false /\ req_hdr_ctes fx_none s = req_ctes fx_none s
   /\ gate s (bs "db1") = OExec [(bs "db1", bs "cpu"); (bs "db1", bs "mem")] Transformed
        (bs "SELECT a.host FROM read_parquet('/R/db1/cpu/**/*.parquet', union_by_name=true) a FULL OUTER JOIN (SELECT * FROM read_parquet('/R/db1/mem/**/*.parquet', union_by_name=true)) m ON a.id = m.id   WHERE a.tag = 'q'").
 Proof. vm_compute. repeat split. Qed.
@@ -166,7 +222,7 @@ Proof. vm_compute. repeat split. Qed.
 Theorem C14_header_cte_slow_path_refuted :
   let s := bs ("WITH" ++ nl ++ "secret AS (SELECT 'x') SELECT * FROM secret") in
   req_in_grammar s = true /\ pathlike_free s = true /\ fast_single_ok false false s = false
-  /\ hdr_ctes false (req_toks s) <> cte_names (req_toks s)
+  /\ req_hdr_ctes fx_none s <> req_ctes fx_none s
   /\ accepted_unchecked s (bs "db2") Transformed
        (bs ("WITH" ++ nl ++ "secret AS (SELECT 'x') SELECT * FROM read_parquet('/R/db2/secret/**/*.parquet', union_by_name=true)"))
   /\ request_reads fx_none s (bs "db2") = [(bs "db2", bs "secret")].
@@ -177,7 +233,7 @@ Theorem C14_header_window_clause_refuted :
   req_in_grammar s = true /\ pathlike_free s = true
   /\ accepted_unchecked s (bs "db2") Transformed
        (bs "SELECT * FROM read_parquet('/R/db2/secret/**/*.parquet', union_by_name=true) WINDOW w1 AS (ORDER BY id), secret AS (ORDER BY id)")
-  /\ gate_gen {| fx_with := true; fx_dedup := false; fx_scanner := false; fx_denylist := false; fx_noraw := false; fx_bsq := false; fx_single := false |} s (bs "db2")
+  /\ gate_gen {| fx_with := true; fx_dedup := false; fx_scanner := false; fx_denylist := false; fx_noraw := false; fx_bsq := false; fx_single := false; fx_cteq := false |} s (bs "db2")
      = OExec [] Transformed s.
 Proof. vm_compute. repeat split. Qed.
 
@@ -208,21 +264,39 @@ Proof. vm_compute. repeat split. eexists. repeat split. Qed.
 (* For EVERY token list of the class: the four rewriting passes of convertSQLToStoragePaths produce exactly
    the statement in which the table references were substituted - every other token, every join prefix word
    (LEFT, FULL OUTER, ASOF, LATERAL ...) and the order are unchanged. *)
-Theorem C16_transform_is_subst : forall names ts, in_grammar names ts = true ->
-  passes_nohdr names ts = toks (subst_segs names (cte_names ts) k_default true (segs_of ts)).
+Theorem C16_transform_is_subst : forall q names ts, in_grammar names ts = true ->
+  passes_nohdr q names ts = toks (subst_segs names (cte_set q names ts) k_default true (segs_of ts)).
 Proof.
-  intros names ts H. destruct (in_grammar_facts _ _ H) as (E & Hwf & Hrp).
-  rewrite <- E at 1. rewrite (passes_nohdr_subst names Hrp _ Hwf), E. reflexivity.
+  intros q names ts H. destruct (in_grammar_facts _ _ H) as (E & Hwf & Hrp).
+  rewrite <- E at 1. rewrite (passes_nohdr_subst names Hrp q _ Hwf), E. reflexivity.
 Qed.
 Print Assumptions C16_transform_is_subst.
 
-Theorem C16_transform_is_subst_header : forall same names hdr ts, in_grammar names ts = true ->
-  passes_hdr same names hdr ts = toks (subst_segs names (hdr_ctes same ts) hdr false (segs_of ts)).
+Theorem C16_transform_is_subst_header : forall q same names hdr ts, in_grammar names ts = true ->
+  passes_hdr q same names hdr ts = toks (subst_segs names (hdr_ctes q same names ts) hdr false (segs_of ts)).
 Proof.
-  intros same names hdr ts H. destruct (in_grammar_facts _ _ H) as (E & Hwf & Hrp).
-  rewrite <- E at 1. rewrite (passes_hdr_subst names Hrp same hdr _ Hwf), E. reflexivity.
+  intros q same names hdr ts H. destruct (in_grammar_facts _ _ H) as (E & Hwf & Hrp).
+  rewrite <- E at 1. rewrite (passes_hdr_subst names Hrp q same hdr _ Hwf), E. reflexivity.
 Qed.
 Print Assumptions C16_transform_is_subst_header.
+
+(* the CURRENT source: both converters exclude the CTE names of the permission check, incl. the unquoted names of
+   CTEs declared with a quoted name *)
+Theorem C16_current_transform_is_subst : forall names hdr ts, in_grammar names ts = true ->
+  passes_nohdr true names ts = toks (subst_segs names (cte_set true names ts) k_default true (segs_of ts))
+  /\ passes_hdr true true names hdr ts = toks (subst_segs names (cte_set true names ts) hdr false (segs_of ts)).
+Proof.
+  intros names hdr ts H. split; [apply C16_transform_is_subst; exact H|].
+  rewrite (C16_transform_is_subst_header true true names hdr ts H). reflexivity.
+Qed.
+Print Assumptions C16_current_transform_is_subst.
+
+(* a CTE declared quoted and referenced bare (old variant: rewritten to the measurement of that name; now: left alone) *)
+Theorem C16_quoted_cte_declaration :
+  let s := bs "WITH ""cpu"" AS (SELECT 1 AS one) SELECT * FROM cpu" in
+  (exists text, gate s (bs "db1") = OExec [(bs "db1", bs "cpu")] Transformed text /\ has_sub (bs "read_parquet") text = true)
+  /\ gate_gen fx_all s (bs "db1") = OExec [] Transformed s.
+Proof. split; [eexists; split; vm_compute; reflexivity|vm_compute; reflexivity]. Qed.
 
 (* the emitted join keeps the words of the prefix it replaces *)
 Theorem C16_join_kind_preserved : forall p db m,
